@@ -12,11 +12,13 @@
 using Real = REALT;
 extern "C" { double irsym_symbolic_real(void); void irsym_output_real(long idx, double v); }
 #define ENTRY(name) extern "C" __attribute__((noinline)) void name(long a0, long a1, long a2, long a3, long a4, long a5)
-static Real S[4][NMAXP], T[4][NMAXP], SR[4][NMAXP], TR[4][NMAXP];
+// every array has exactly as many elements as the count handed to the routine: touching element [count] (or [0] of an empty set) is out of bounds
+static Real* S[4]; static Real* T[4]; static Real* SR[4]; static Real* TR[4];
 // a0 = routine (0 FullMutual, 1 GenericInner, 2 GenericFullRemote, 3 MutualParticles, 4 NonMutualParticles), a1 = #sources, a2 = #targets
 // inputs are requested in this order: per source x,y,z,q,rhs0..3 ; per target x,y,z,q,rhs0..3 ; outputs: per source rhs0..3, per target rhs0..3
 ENTRY(h_p2p){
     const long ns = a1, nt = a2;
+    for(int c = 0; c < 4; ++c){ S[c] = new Real[ns]; SR[c] = new Real[ns]; T[c] = new Real[nt]; TR[c] = new Real[nt]; }
     for(long j = 0; j < ns; ++j){ for(int c = 0; c < 4; ++c) S[c][j] = Real(irsym_symbolic_real()); for(int c = 0; c < 4; ++c) SR[c][j] = Real(irsym_symbolic_real()); }
     for(long i = 0; i < nt; ++i){ for(int c = 0; c < 4; ++c) T[c][i] = Real(irsym_symbolic_real()); for(int c = 0; c < 4; ++c) TR[c][i] = Real(irsym_symbolic_real()); }
     std::array<const Real*, 4> sv{{S[0], S[1], S[2], S[3]}}, tv{{T[0], T[1], T[2], T[3]}};
@@ -24,10 +26,11 @@ ENTRY(h_p2p){
     if(a0 == 0) FP2PR::FullMutual<Real>(sv, sr, ns, tv, tr, nt);
     else if(a0 == 1) FP2PR::GenericInner<Real>(tv, tr, nt);
     else if(a0 == 2) FP2PR::GenericFullRemote<Real>(sv, ns, tv, tr, nt);
-    else if(a0 == 3) FP2PR::MutualParticles<Real>(S[0][0], S[1][0], S[2][0], S[3][0], &SR[0][0], &SR[1][0], &SR[2][0], &SR[3][0],
+    else if(a0 == 3 && ns >= 1 && nt >= 1) FP2PR::MutualParticles<Real>(S[0][0], S[1][0], S[2][0], S[3][0], &SR[0][0], &SR[1][0], &SR[2][0], &SR[3][0],
                                                  T[0][0], T[1][0], T[2][0], T[3][0], &TR[0][0], &TR[1][0], &TR[2][0], &TR[3][0]);
-    else FP2PR::NonMutualParticles<Real>(S[0][0], S[1][0], S[2][0], S[3][0], T[0][0], T[1][0], T[2][0], T[3][0], &TR[0][0], &TR[1][0], &TR[2][0], &TR[3][0]);
+    else if(a0 == 4 && ns >= 1 && nt >= 1) FP2PR::NonMutualParticles<Real>(S[0][0], S[1][0], S[2][0], S[3][0], T[0][0], T[1][0], T[2][0], T[3][0], &TR[0][0], &TR[1][0], &TR[2][0], &TR[3][0]);
     long k = 0;
     for(long j = 0; j < ns; ++j) for(int c = 0; c < 4; ++c) irsym_output_real(k++, double(SR[c][j]));
     for(long i = 0; i < nt; ++i) for(int c = 0; c < 4; ++c) irsym_output_real(k++, double(TR[c][i]));
+    for(int c = 0; c < 4; ++c){ delete[] S[c]; delete[] SR[c]; delete[] T[c]; delete[] TR[c]; }
 }
